@@ -1016,3 +1016,5 @@ def run(chk, tier):
     chk.guard('C07.d', lambda: c02.rule_initadd(chk, prog, tier, 'C07.d', bits=True))
     chk.guard('C07.c', lambda: rule_funcinit(chk, prog, tier))
     chk.guard('C07.e', lambda: rule_addrconst(chk, prog, tier))
+    from props import c16
+    chk.guard('C16.c', lambda: c16.rule_stringkey(chk, prog, tier))      # string literal objects: distinct literals get distinct storage
